@@ -88,6 +88,17 @@ theorem C39_rendered (caller : Env) (items : List Item) (k : Str)
       | none => caller.get k := by
   rw [C39_env_full, C39_parse items hq hp]
 
+/-! ### the command's return code -/
+
+/-- the failure test of `Lmod.execute` (regenerated from the source) is true on every non-zero return code, negative
+    ones (death by signal) included, and false on 0 -/
+theorem C39_rc_pinned :
+    EnvRegexes.lmodRcTest.failsOnNonzero = true ∧ EnvRegexes.lmodRcTest.eval 0 = false := by decide
+
+/-- FULL: whatever non-zero status the command ends with under Lmod, the task fails (RuntimeError) -/
+theorem C39_nonzero_fails (rc : Int) (h : rc ≠ 0) : EnvRegexes.lmodRcTest.eval rc = true :=
+  PydraModel.JobProto.RcTest.failsOnNonzero_sound _ C39_rc_pinned.1 rc h
+
 /-! ### witnesses -/
 
 /-- D23q (quoting): a value containing the other quote character is cut at it — the non-greedy `(.*?)['"]` stops at the
